@@ -154,7 +154,7 @@ def _sec_variants(q, has_owner_secret):
     if RENEW in q:
         v += ["short-renew", "long-cancel"]
     if UPLOAD in q or WE in q:
-        v += ["wrong:" + k0, "dup-wrong-wrong:" + k0, "dup-wrong-right:" + k0, "dup-right-wrong:" + k0]
+        v += ["wrong:" + k0, "prefix:" + k0, "dup-wrong-wrong:" + k0, "dup-wrong-right:" + k0, "dup-right-wrong:" + k0]
     if has_owner_secret:
         v += ["other-client", "dup-wrong-other"]
     return v
@@ -282,6 +282,8 @@ def secret_headers(k, spec):
         vals = repl(CANCEL, b64(right[CANCEL] + b"\x00"))
     elif name == "wrong":
         vals = repl(arg, b64(wrong))
+    elif name == "prefix":
+        vals = repl(arg, b64(right[arg][:16]))          # a proper prefix of the right secret
     elif name == "other-client":
         vals = repl(UPLOAD, b64(other))
     elif name == "dup-wrong-other":
